@@ -306,7 +306,7 @@ var c20Receivers = []c20Recv{
 		return &stats.UDist{N1: 4, N2: 5, T: houseI(rng, [][]int{{1, 2, 3, 1, 2}, {3, 1, 2, 2, 1}, {2, 2, 1, 1, 3}}[rng.Intn(3)])}
 	}},
 	{"stats.KDE", reflect.TypeOf((*stats.KDE)(nil)), func(rng *rand.Rand, n int) interface{} {
-		return &stats.KDE{Sample: c20Sample(rng, n+2, rng.Intn(2) == 0), Bandwidth: 0.75}
+		return &stats.KDE{Sample: c20Sample(rng, n+2, rng.Intn(2) == 0), Bandwidth: 0.75 * c20DUnit()}
 	}},
 	{"stats.LinearHist", reflect.TypeOf((*stats.LinearHist)(nil)), func(rng *rand.Rand, n int) interface{} {
 		h := stats.NewLinearHist(0, float64(n)/2+1, 5)
